@@ -48,7 +48,7 @@ Lemma gen_shuffle_model : forall (perm : list nat) m,
 Proof.
   intros perm m. unfold gen_randomly_order_tags. cbv zeta.
   match goal with |- ok_opt (obind (fold_res ?F _ _) _) = _ =>
-    pose proof (kg_loop m F ltac:(intros; reflexivity) perm [] []) as HL
+    pose proof (kg_loop m F ltac:(body_eq) perm [] []) as HL
   end.
   destruct (fold_res _ (map N.of_nat perm) ([], [])) as [[ts vs]| |];
     destruct (randomly_order_tags perm m) as [rest| |]; cbn [ok_opt obo obind app] in *; try discriminate HL; try reflexivity.
